@@ -180,8 +180,31 @@ class HooksModule:
             if call.args:
                 if not (len(call.args) == 1 and dotted(call.args[0]) == conv):
                     raise AnalysisError(f"{self.rel}:{st.lineno}: {fn} is not called with the converter")
-                self._register_fn(self.functions[fn])
             self.register_order.append(fn)
+        # 1st choice: semantic extraction (micro-evaluator); 2nd: the syntactic table parser
+        self.extraction = None
+        fold_err = None
+        try:
+            regs, facs = fold_registrations(self)
+            self.registrations = regs
+            self.extraction = "folded"
+        except AnalysisError as e:
+            fold_err = e
+        parsed_regs = []
+        try:
+            saved = self.registrations
+            self.registrations = []
+            for fn, args in self.register_hooks_calls:
+                if args:
+                    self._register_fn(self.functions[fn])
+            parsed_regs = self.registrations
+            self.registrations = saved if self.extraction == "folded" else parsed_regs
+            if self.extraction is None:
+                self.extraction = "parsed"
+        except AnalysisError as e:
+            if self.extraction != "folded":
+                raise AnalysisError(f"{e} (semantic extraction also failed: {fold_err})")
+            self.registrations = saved
 
     def _register_fn(self, fn: ast.FunctionDef):
         if len(fn.args.args) != 1:
@@ -355,3 +378,152 @@ class ConvertersModule:
                 self.get_converter = st
         if self.get_converter is None:
             raise AnalysisError(f"{rel}: get_converter not found")
+
+
+# ------------------------------------------------------------------------------------------------
+# semantic extraction of the registrations: the register functions are run in the micro-evaluator with the
+# converter, typing, attrs and the types module stubbed; works for tables built by loops / comprehensions /
+# helper functions as well as for the literal tables of the pinned tree
+
+class TyVal:
+    """A typing object inside the evaluator: a tyexpr plus its ordered top-level union members."""
+
+    def __init__(self, ty, order=None):
+        self.ty = ty
+        self.order = order if order is not None else [ty]
+
+
+class TypingHead:
+    def __init__(self, name, to_ty):
+        self.name = name
+        self.to_ty = to_ty
+
+    def __vsubscript__(self, idx):
+        from .pymodel import mk_union_ordered
+        args = list(idx) if isinstance(idx, tuple) else [idx]
+        n = self.name
+        if n in ("Union", "Optional"):
+            parts = [self.to_ty(a) for a in args]
+            if n == "Optional":
+                if len(parts) != 1:
+                    raise AnalysisError("Optional with several arguments")
+                parts.append(TyVal(NONE))
+            ty, order = mk_union_ordered([(p.ty, p.order) for p in parts])
+            return TyVal(ty, order)
+        if n in ("Sequence", "List", "Iterable"):
+            if len(args) != 1:
+                raise AnalysisError(f"{n} with {len(args)} arguments")
+            return TyVal(("seq" if n == "Sequence" else "list", self.to_ty(args[0]).ty))
+        if n in ("Dict", "Mapping"):
+            if len(args) != 2:
+                raise AnalysisError(f"{n} with {len(args)} arguments")
+            return TyVal(("map", self.to_ty(args[0]).ty, self.to_ty(args[1]).ty))
+        if n == "Tuple":
+            return TyVal(("tup", tuple(self.to_ty(a).ty for a in args)))
+        if n == "Literal":
+            return TyVal(("lit", tuple(args)))
+        raise AnalysisError(f"typing.{n}[...] is not modelled")
+
+
+def fold_registrations(hm: "HooksModule"):
+    """-> (registrations [Registration], factories [(direction, predicate value, Closure)]) or raises AnalysisError"""
+    from . import microeval
+    from .microeval import Interp, Record, ClassRef, ModuleRef, Closure, Raised
+    t = hm.types
+
+    def to_ty(v) -> TyVal:
+        if isinstance(v, TyVal):
+            return v
+        if v is None or v is type(None):
+            return TyVal(NONE)
+        if isinstance(v, ClassRef):
+            c = t.classes.get(v.name)
+            if c is None:
+                raise AnalysisError(f"class {v.name} used as a type is not defined in types.py")
+            return TyVal(("cls", v.name) if c.kind == "attrs" else ("enum", v.name) if c.kind == "enum" else ("opaque", v.name))
+        if isinstance(v, type) and v.__name__ in PRIMS:
+            return TyVal(("prim", PRIMS[v.__name__]))
+        if isinstance(v, str):
+            if v.isidentifier():
+                return TyVal(("fwd", v))
+            raise AnalysisError(f"string {v!r} in a type position")
+        raise AnalysisError(f"value {v!r} in a type position")
+
+    def class_ref(name):
+        c = t.classes[name]
+        bases = ["Enum"] if c.kind == "enum" else []
+        return ClassRef(name, c.kind, bases)
+    tattrs = {}
+    for name in t.env:
+        if name in t.classes:
+            tattrs[name] = class_ref(name)
+        else:
+            tattrs[name] = TyVal(t.env[name], list(t.env_order.get(name, [t.env[name]])))
+    amap_node = t.tables.get("ALL_TYPES_MAP")
+    amap = {}
+    if isinstance(amap_node, ast.Dict):
+        for k, v in zip(amap_node.keys, amap_node.values):
+            if isinstance(k, ast.Constant) and isinstance(v, ast.Name) and v.id in tattrs:
+                amap[k.value] = tattrs[v.id]
+    tattrs["ALL_TYPES_MAP"] = amap
+    types_mod = ModuleRef("types", attrs=tattrs)
+
+    def fields(cls):
+        if not isinstance(cls, ClassRef) or cls.name not in t.classes or t.classes[cls.name].kind != "attrs":
+            raise AnalysisError("attrs.fields() on something that is not a generated attrs class")
+        c = t.classes[cls.name]
+        return Record("Fields", {f.name: Record("Attribute", {"name": f.name, "type": TyVal(f.resolved, t.resolve_order(f.ty_order))})
+                                 for f in c.fields})
+    attrs_mod = ModuleRef("attrs", attrs={"fields": ("host", fields),
+                                          "has": ("host", lambda c: isinstance(c, ClassRef) and c.kind == "attrs")})
+    enum_mod = ModuleRef("enum", attrs={"Enum": ClassRef("Enum", "enumbase"), "IntEnum": ClassRef("Enum", "enumbase")})
+    sys_mod = ModuleRef("sys", attrs={"version_info": (3, 8, 0, "final", 0)})
+    g = {hm.types_alias: types_mod, "attrs": attrs_mod, "enum": enum_mod, "sys": sys_mod,
+         "cattrs": ModuleRef("cattrs", attrs={"gen": ModuleRef("cattrs.gen", attrs={}), "Converter": ClassRef("Converter")})}
+    for n in ("Union", "Optional", "Sequence", "List", "Iterable", "Dict", "Mapping", "Tuple", "Literal"):
+        g[n] = TypingHead(n, to_ty)
+    g["Any"] = TyVal(("prim", "any"))
+    it = Interp(name=hm.rel, extra_globals=g)
+    # module level of _hooks.py: functions and simple assignments (type aliases, constants)
+    for st in hm.tree.body:
+        if isinstance(st, ast.FunctionDef):
+            it.globals[st.name] = Closure(st, None, it)
+        elif isinstance(st, (ast.Assign, ast.AnnAssign)):
+            tgt = st.targets[0] if isinstance(st, ast.Assign) else st.target
+            if isinstance(tgt, ast.Name) and st.value is not None:
+                try:
+                    it.globals[tgt.id] = it.eval(st.value, {})
+                except (AnalysisError, Raised):
+                    pass
+    regs, facs = [], []
+    for fn_name, args in hm.register_hooks_calls:
+        if not args:
+            continue
+        fn = hm.functions[fn_name]
+        conv_name = fn.args.args[0].arg
+
+        def mk_reg(fn_name=fn_name, conv_name=conv_name):
+            def register(key, hook=None):
+                if hook is None:
+                    raise AnalysisError(f"{hm.rel}: decorator form of register_structure_hook is not modelled")
+                tv = to_ty(key)
+                if not isinstance(hook, Closure):
+                    raise AnalysisError(f"{hm.rel}: a structure hook in {fn_name} is not a function defined in the package")
+                node = hook.node
+                regs.append(Registration(tv.ty, tv.order, node, getattr(node, "name", "<lambda>"), "<folded>",
+                                         node.lineno, fn_name, conv_name, show(tv.ty)))
+            return ("host", register)
+
+        def mk_fac(direction, fn_name=fn_name):
+            def r(pred, factory=None):
+                facs.append((direction, pred, factory, fn_name))
+                return factory
+            return ("host", r)
+        conv = Record("Converter", {"register_structure_hook": mk_reg(),
+                                    "register_structure_hook_factory": mk_fac("structure"),
+                                    "register_unstructure_hook_factory": mk_fac("unstructure")})
+        try:
+            it.call(fn, [conv])
+        except Raised as e:
+            raise AnalysisError(f"{hm.rel}: {fn_name} raises {e.exc_name} when folded")
+    return regs, facs
